@@ -1,7 +1,9 @@
 //! C08: truth maintenance through IncrementalEngine, driven by Tms.tla labels.
 use crate::core::Model;
 use rust_rule_engine::rete::propagation::IncrementalEngine;
-use rust_rule_engine::rete::{FactHandle, TypedFacts};
+use rust_rule_engine::rete::network::ReteUlNode;
+use rust_rule_engine::rete::{ActionResult, ActionResults, AlphaNode, FactHandle, TypedFacts, TypedReteUlRule};
+use std::sync::{Arc, Mutex};
 use serde_json::{json, Value};
 
 pub struct TmsM {
@@ -9,11 +11,48 @@ pub struct TmsM {
     nh: u64,
     issued: Vec<u64>,
     monotone: bool,
+    target: Arc<Mutex<(u64, i64)>>, // what the "consume" rule's next firing derives from and consumes: (premise handle, payload)
 }
 
 impl TmsM {
     pub fn new(cfg: &Value) -> TmsM {
-        TmsM { e: IncrementalEngine::new(), nh: cfg["NH"].as_u64().unwrap_or(4), issued: vec![], monotone: true }
+        let mut e = IncrementalEngine::new();
+        // a rule on trigger facts of type G: its action derives a fact of type F from the target premise and then consumes that
+        // premise - InsertLogicalFact followed by Retract among the results of ONE firing - and retracts its own trigger
+        let target = Arc::new(Mutex::new((0u64, 0i64)));
+        let tg = target.clone();
+        e.add_rule(
+            TypedReteUlRule {
+                name: "consume".to_string(),
+                node: ReteUlNode::UlAlpha(AlphaNode { field: "G.go".to_string(), operator: ">=".to_string(), value: "0".to_string() }),
+                priority: 0,
+                no_loop: false,
+                action: Arc::new(move |facts: &mut TypedFacts, results: &mut ActionResults| {
+                    let (p, n) = *tg.lock().unwrap();
+                    let mut d = TypedFacts::new();
+                    d.set("n", n);
+                    results.add(ActionResult::InsertLogicalFact { fact_type: "F".to_string(), data: d, rule_name: "consume".to_string(), premises: vec![FactHandle::new(p)] });
+                    results.add(ActionResult::Retract(FactHandle::new(p)));
+                    if let Some(t) = facts.get_fact_handle("G") {
+                        results.add(ActionResult::Retract(t));
+                    }
+                }),
+            },
+            vec!["G".to_string()],
+        );
+        // variant: justification ids run ahead of fact handles by `skew` (handles and justification ids are two counters that
+        // happen to advance together in simple histories): a dummy logical fact receives `skew` extra justifications up front
+        let skew = cfg["skew"].as_u64().unwrap_or(0);
+        if skew > 0 {
+            let mut d = TypedFacts::new();
+            d.set("n", -1i64);
+            let d0 = e.insert_explicit("D".to_string(), d.clone());
+            let d1 = e.insert_logical("D".to_string(), d, "dummy".to_string(), vec![d0]);
+            for _ in 0..skew {
+                e.tms_mut().add_logical_justification(d1, "dummy".to_string(), vec![d0]);
+            }
+        }
+        TmsM { e, nh: cfg["NH"].as_u64().unwrap_or(4), issued: vec![], monotone: true, target }
     }
     fn data(&self) -> TypedFacts {
         let mut t = TypedFacts::new();
@@ -88,6 +127,19 @@ impl Model for TmsM {
             "retract" => {
                 let h = self.real(l["h"].as_u64().unwrap());
                 let _ = self.e.retract(h);
+            }
+            "consume" => {
+                let p = self.real(l["h"].as_u64().unwrap());
+                *self.target.lock().unwrap() = (p.id(), self.issued.len() as i64);
+                let mut g = TypedFacts::new();
+                g.set("go", 1i64);
+                let trigger = self.e.insert("G".to_string(), g);
+                let fired = self.e.fire_all();
+                // the derived fact got the id after the trigger's (ids are a counter); it is gone again when all is well
+                self.note(FactHandle::new(trigger.id() + 1));
+                if fired != vec!["consume".to_string()] {
+                    return json!({"consume_rule_fired": fired});
+                }
             }
             o => panic!("unknown op {}", o),
         }
